@@ -68,7 +68,8 @@ class Walker:
     on_return(path) is called when a `return` terminator is reached.
     """
 
-    def __init__(self, fn, body=None, max_visits=2, follow_errors=False, max_paths=20000):
+    def __init__(self, fn, body=None, max_visits=2, follow_errors=False, max_paths=20000, max_depth=None):
+        self.max_depth = max_depth
         self.fn = fn
         self.b = Body(fn, body)
         self.max_visits = max_visits
@@ -169,6 +170,18 @@ class Walker:
 
     # ---- the walk
     def run(self, start=0, init=None, on_call=None, on_return=None, on_switch=None, on_stmt=None):
+        """see class doc; `max_depth` (constructor) raises the term nesting limit for this walk only"""
+        global MAXD
+        if self.max_depth is None:
+            return self._run(start, init, on_call, on_return, on_switch, on_stmt)
+        saved = MAXD
+        MAXD = self.max_depth
+        try:
+            return self._run(start, init, on_call, on_return, on_switch, on_stmt)
+        finally:
+            MAXD = saved
+
+    def _run(self, start=0, init=None, on_call=None, on_return=None, on_switch=None, on_stmt=None):
         stack = [(start, init or Path())]
         F_enum = None
         while stack:
